@@ -490,6 +490,17 @@ func finAcceptSuppressesPanic(fn *ssa.Function, call ssa.CallInstruction) bool {
 		return false
 	}
 	b := te[0].From.Succs[te[0].Succ]
+	// simplest form: the call is branched on directly (`if !isSource(s) && !f.IsFinState(s) { panic }`): from the true
+	// edge no panic is reachable (the reachability is aware of merged boolean flags)
+	direct := true
+	for _, pn := range pns {
+		if len(b.Instrs) == 0 || b.Instrs[0] == pn || ssax.ReachableFrom(fn, b.Instrs[0], pn, nil, nil) {
+			direct = false
+		}
+	}
+	if direct {
+		return true
+	}
 	for _, pn := range pns {
 		ok := false
 		for _, cd := range ssax.Conds(fn) {
